@@ -62,6 +62,9 @@ CLAIMED = {
  "C11": ("other", "optional-getter nil-guard analysis (SSA must-facts, bottom-up dereference summaries, witnessed preconditions) + compiler-proved bounds (check_bce) + recursion/loop-progress shape rules",
    "Absence of panics in general is not decided. Decided for all of package pub (and the literal codecs for bounds): every result of an optional vocabulary getter used as a receiver, or passed to a function that dereferences it, is known non-nil at the use or covered by a reviewed precondition whose witness is re-verified each run; GetIRI() only where IsIRI() is known; no un-checked type assertion; every index/slice the Go compiler cannot prove in bounds is in a reviewed table with its reason; every recursion is depth-guarded or structural; every loop without post statement makes progress.",
    "Application interfaces are assumed to return non-nil values with a nil error; panics of other origin and application code are not covered. Trusted: go/types, go/ssa, the gc prove pass, e2_facts.go.", "DESIGN.md §4 C11"),
+ "C15": ("other", "map-iteration-order lint over all of astool (go/types-resolved range sites, classes commutative / sorted-before-use / reviewed with re-verified witnesses) + symbolic set-algebra reading of the generator's member-set and closure functions",
+   "Regenerating the shipped package and compiling generated extensions need the generator and the compiler to be run and are not decided (regeneration was reproduced once, outside the checks). Decided: the structural necessary condition of run-to-run identical output - each of the 68 ranges over a map in astool/... is commutative, feeds only slices sorted before use, or is in a reviewed table (function + ranged expression, reason, and a witness re-verified on each run: sorting consumer NewInterface, name-keyed NewStruct/NewTypedef emitting sorted, sorted-by-callee, file set written by path, TypeGenerator maps); no jennifer statement is built inside a map range; and the necessary condition of extension member sets - allProperties = (own + all transitive ancestors' properties) minus (all transitive ancestors' and own withheld), removals after all additions; the extends/extended-by/disjoint builders use the transitive-closure helpers.",
+   "17 reviewed sites rest on recorded keyed-effects reasons (listed in the evidence as assumptions), not on a mechanical witness. Trusted: go/parser, go/types, sort, jennifer's renderer.", "DESIGN.md §4 C15"),
 }
 NOT_YET = {}
 ALL = ["C%02d" % i for i in range(1, 21)]
